@@ -678,6 +678,14 @@ def r8_pickle(rep, ctx):
     at_least_one = rets[0] not in avoid_all
     at_most_one = all(not (set(cfg.reach(a_)) & set(appends)) for a_ in appends)
     cap_ok = all(_mentions_caption(res, cfg.ast[a_].value.args[0]) for a_ in appends)
+    if not appends:
+        # the state written as one list display: [*items, <caption or None>]
+        defs_ = [st_ for st_ in own_statements(red.node) if isinstance(st_, (ast.Assign, ast.AnnAssign)) and st_.value is not None
+                 and any(isinstance(t_, ast.Name) and t_.id == lst for t_ in (st_.targets if isinstance(st_, ast.Assign) else [st_.target]))]
+        if len(defs_) == 1 and isinstance(defs_[0].value, ast.List) and len(defs_[0].value.elts) >= 2 and all(isinstance(e_, ast.Starred) for e_ in defs_[0].value.elts[:-1]) \
+                and not isinstance(defs_[0].value.elts[-1], ast.Starred):
+            at_least_one = at_most_one = True
+            cap_ok = _mentions_caption(res, defs_[0].value.elts[-1])
     rep.check(at_least_one and at_most_one and cap_ok, "C07.R8", "Quantity.__reduce__:one-trailing-caption",
               "exactly one trailing element (the caption or None) is appended to the item list on every path",
               "the state list gets %s trailing caption element on some path" % ("no" if not at_least_one else ("more than one" if not at_most_one else "a non-caption")), fn=red)
